@@ -12,6 +12,11 @@ CLAIMED = {
    note="Trusted: go/ssa front end, gcv VC generator, SMT solvers, math/bits axioms, pinned moduli. Assembly bodies under default tags are assumed contracts (listed in evidence). Inverse/Exp/Sqrt/Legendre/BatchInvert/vector ops not yet under contract (listed under not_covered).",
    technique="contract-based deductive verification: weakest-precondition style symbolic execution over go/ssa with //@ contracts, cut points with ghost quotients, SMT (z3 5.1, z3 4.8.12, cvc5 1.0)",
    design="§5 C01"),
+ "C06": dict(
+   text="Deductive proof at the ring layer: for the towers of bn254, bls12-377, bls12-381, bls24-315 and bls24-317, Add/Sub/Double/Neg/Conjugate/Mul/Square/MulByNonResidue/MulByElement/MulByE2 of every level and the sparse products (MulBy01, MulBy1, MulBy12, MulBy034, MulBy34, Mul034By034, Mul34By34, MulBy01234, MulBy014, Mul014By014, MulBy01245, ...) equal the schoolbook product in R[X]/(X^k - nr) computed by the tool from the documented defining polynomials; identities are proved over the integers (Z-lifting) by z3/cvc5 for every alias partition, including operands pointing into the receiver where the contract says so.",
+   note="Trusted: ring-layer interpretation of lower-layer methods by their own contracts; Z-lifting; documented tower polynomials. Not under contract: Inverse/Div/Sqrt/Exp/Frobenius/cyclotomic squarings/torus compression, bw6 towers, small-field extensions; amd64 E2 assembly kernels are assumed contracts.",
+   technique="contract-based deductive verification at an abstract-ring layer (go/ssa symbolic execution yields polynomials; SMT proves the polynomial identities)",
+   design="§5 C06"),
  "C08": dict(
    text="Deductive proof that the byte-order codecs (BigEndian/LittleEndian Element and PutElement, Bytes, SetBytesCanonical), Montgomery conversions (toMont/fromMont/Bits), integer setters (SetUint64/SetInt64/NewElement), Uint64/IsUint64/FitsOnOneWord, Cmp and LexicographicallyLargest of all 23 field packages meet contracts over the regular value reg(v); decoders accept exactly encodings below q; round-trip laws are lemma functions verified modularly from the encoder and decoder contracts.",
    note="Trusted: as C01 plus encoding/binary axioms and the definition of reg (existence from gcd(R,q)=1, q odd checked). Not under contract: SetBytes/SetBigInt/BigInt/Text/SetString/JSON (math/big, strconv) and the vector readers/writers.",
